@@ -25,7 +25,7 @@ def parseCase (j : Json) : Option Case :=
 def parseResp (r : String) (cut len : Nat) : Option Resp :=
   match r with
   | "ok" => some .ok | "okcert" => some .okcert | "zero" => some .zero | "garbage" => some .garbage
-  | "oversize" => some .oversize | "cut" => some (.cut cut len) | "never" => some .never | _ => none
+  | "oversize" => some .oversize | "overshort" => some .oversize | "limit" => some .limit | "cut" => some (.cut cut len) | "never" => some .never | _ => none
 
 def className : Class → String
   | .pass => "pass" | .fail => "fail" | .setup => "setup" | .norun => "norun" | .noresult => "noresult"
